@@ -2,6 +2,7 @@
 // @also C04 C05
 // @engine B
 // @entry vfh_C09_do_run
+// @shared_state_watch
 // @tier Q
 // @reach do_run.done
 // @funcs IPhreeqc::do_run; IPhreeqc::update_errors; IPhreeqc::output_msg; IPhreeqc::log_msg; IPhreeqc::punch_msg
